@@ -11,6 +11,9 @@ import SimuVerif.Lemmas.RemeshMerge9
 import SimuVerif.Lemmas.SurfaceManifold
 import SimuVerif.Lemmas.RemeshMerge10
 import SimuVerif.Lemmas.RemeshMerge11
+import SimuVerif.Lemmas.RemeshPass
+import SimuVerif.Lemmas.RemeshPassLive
+import SimuVerif.Lemmas.RemeshPassChecks
 /-
   C01 — cell surfaces stay closed, consistently oriented 2-manifolds under remeshing.
 
@@ -464,6 +467,146 @@ theorem swap_keeps_index {fn : Fn R} {c c' : Cell R} {e : Edge}
 theorem index_sound_of_complete {c : Cell R} (hidx : EdgeIdxComplete c) (hI : Inv (Remesh.abs c)) : EdgeIdxSound c :=
   edgeIdxSound_of_complete hidx hI
 end refinement
+
+/-! ### whole passes of `refine_mesh`: the run-time hypotheses become invariants
+
+  `Remesh.CellOk c` = consistent free list of face slots ∧ sound and complete edge index ∧ consistent node store (free
+  queue = the unused slots, every node of a live face is used) ∧ `Inv (abs c)` ∧ every vertex link connected.
+  `refine_pass_preserves`: it is preserved by a whole pass (swap pass + split / collapse loop), for every outcome — so the
+  hypotheses of `split_refines`, `swap_refines`, `merge_executed_refines`, which the driver evaluates before every
+  executed operation, hold at EVERY operation of EVERY pass once they hold for the cell the pass starts from.
+  The crux is the check set of `refine_mesh` (`Remesh.ChkOk`): popped edges are acted on without a new look-up. -/
+section passes
+open Simu.Remesh
+variable {R : Type} [Add R] [Sub R] [Mul R] [Div R] [Neg R] [Lit R] [LT R] [LE R] [DecidableLT R] [DecidableLE R] [DecidableEq R]
+
+/-- the abstract operations of a pass as operations of this file -/
+def ofAOp : AOp → Op
+  | .split a b e => .split a b e
+  | .swap a b => .swap a b
+  | .collapse a b i => .collapse a b i
+
+theorem apply_ofAOp (T : List Tri) (op : AOp) : apply T (ofAOp op) = op.apply T := by cases op <;> rfl
+
+theorem enabled_ofAOp {T : List Tri} {op : AOp} (en : op.Enabled T) : Enabled T (ofAOp op) := by
+  cases op <;> exact en
+
+/-- reachability in which every operation may be followed by a reordering of the triangle list and rotations of
+    triangles (what the concrete operations produce: slot order, `check_face_winding_order`) -/
+inductive ReachUpTo (T₀ : List Tri) : List Tri → Prop where
+  | refl : ReachUpTo T₀ T₀
+  | step {T T' : List Tri} (h : ReachUpTo T₀ T) (op : Op) (en : Enabled T op) (he : TriEquiv T' (apply T op)) :
+      ReachUpTo T₀ T'
+
+theorem reach_upTo {T₀ T : List Tri} (r : Reach T₀ T) : ReachUpTo T₀ T := by
+  induction r with
+  | refl => exact .refl
+  | step _ op en ih => exact .step ih op en (TriEquiv.refl _)
+
+theorem reachUpTo_inv {T₀ T : List Tri} (h₀ : Inv T₀) (r : ReachUpTo T₀ T) : Inv T := by
+  induction r with
+  | refl => exact h₀
+  | step _ op en he ih => exact (inv_triEquiv he).2 (step_inv ih op en)
+
+theorem reachUpTo_vertex_manifold {T₀ T : List Tri} (h₀ : Inv T₀) (hv : AllVMC T₀) (r : ReachUpTo T₀ T) :
+    AllVMC T := by
+  induction r with
+  | refl => exact hv
+  | step hr op en he ih => exact vmc_triEquiv he (step_vmc (reachUpTo_inv h₀ hr) ih op en)
+
+/-- **V − E + F along histories up to reordering** -/
+theorem reachUpTo_chi {T₀ T : List Tri} (h₀ : Inv T₀) (r : ReachUpTo T₀ T) : chiZ T = chiZ T₀ := by
+  induction r with
+  | refl => rfl
+  | step hr op en he ih => rw [chiZ_triEquiv he, step_chi (reachUpTo_inv h₀ hr) op en, ih]
+
+theorem hist_reach {T₀ T : List Tri} {ops : List AOp} (h : Hist T₀ ops T) : ReachUpTo T₀ T := by
+  induction h with
+  | refl => exact .refl
+  | step _ op en he ih => exact .step ih (ofAOp op) (enabled_ofAOp en) (by rw [apply_ofAOp]; exact he)
+
+/-- **a whole pass preserves the invariants** (every parameter set, fuel, swap flag; every outcome: returned, threw,
+    out of fuel; see the note at `Remesh.refineMesh_preserves` about the state handed back with an exception) -/
+theorem refine_pass_preserves (fn : Fn R) (k : RefineConsts R) (lminSq lmaxSq : R) (swapOn : Bool) (c : Cell R)
+    (maxIter : Nat) (hc : CellOk c) : CellOk (refineMesh fn k lminSq lmaxSq swapOn c maxIter).1 :=
+  (refineMesh_preserves fn k lminSq lmaxSq swapOn c maxIter hc).ok
+
+/-- **a whole pass is a history of enabled abstract operations**: the live triangles at the end are reached from those at
+    the start by enabled splits, swaps and collapses (up to reordering); the splits and collapses are, in order, the
+    entries of the log; every entry of the log passed the length test of the code -/
+theorem refine_pass_history (fn : Fn R) (k : RefineConsts R) (lminSq lmaxSq : R) (swapOn : Bool) (c : Cell R)
+    (maxIter : Nat) (hc : CellOk c) :
+    ∃ ops : List AOp, Hist (Remesh.abs c) ops (Remesh.abs (refineMesh fn k lminSq lmaxSq swapOn c maxIter).1) ∧
+      ops.filterMap AOp.tag =
+        (refineMesh fn k lminSq lmaxSq swapOn c maxIter).2.2.reverse.map (fun p => (p.1, p.2.1, p.2.2.1)) ∧
+      ∀ p ∈ (refineMesh fn k lminSq lmaxSq swapOn c maxIter).2.2, LogGuard lminSq lmaxSq p := by
+  obtain ⟨_, ops, lg, hl, hH, ht, hg, _⟩ := refineMesh_preserves fn k lminSq lmaxSq swapOn c maxIter hc
+  rw [List.append_nil] at hl
+  rw [hl]
+  exact ⟨ops, hH, ht, hg⟩
+
+theorem refine_pass_reach (fn : Fn R) (k : RefineConsts R) (lminSq lmaxSq : R) (swapOn : Bool) (c : Cell R)
+    (maxIter : Nat) (hc : CellOk c) :
+    ReachUpTo (Remesh.abs c) (Remesh.abs (refineMesh fn k lminSq lmaxSq swapOn c maxIter).1) := by
+  obtain ⟨ops, hH, _⟩ := refine_pass_history fn k lminSq lmaxSq swapOn c maxIter hc
+  exact hist_reach hH
+
+/-- **Euler's number (hence the genus) is preserved by whole passes** -/
+theorem refine_pass_chi (fn : Fn R) (k : RefineConsts R) (lminSq lmaxSq : R) (swapOn : Bool) (c : Cell R)
+    (maxIter : Nat) (hc : CellOk c) :
+    chiZ (Remesh.abs (refineMesh fn k lminSq lmaxSq swapOn c maxIter).1) = chiZ (Remesh.abs c) :=
+  reachUpTo_chi hc.inv (refine_pass_reach fn k lminSq lmaxSq swapOn c maxIter hc)
+
+/-- the check set a pass starts with (a copy of the index) is valid -/
+theorem check_set_initial {c : Cell R} (hc : CellOk c) : ChkOk c c.edges := chkOk_init hc.idx
+
+/-- what a valid element of the check set says about the cell: its index entry exists and names the same two faces (in
+    one of the two orders), which are two different live faces through both end nodes -/
+theorem check_set_entry {c : Cell R} {x : Edge} (hc : CellOk c) (h : CopyOk c x) :
+    ∃ E, getEdge c x.n1 x.n2 = some E ∧ E.n1 = x.n1 ∧ E.n2 = x.n2 ∧
+      ((E.f1 = x.f1 ∧ E.f2 = x.f2) ∨ (E.f1 = x.f2 ∧ E.f2 = x.f1)) ∧ EdgeFaces c x x.n1 x.n2 ∧ x.n1 ≠ x.n2 :=
+  h.entry hc.idx hc.inv
+
+/-- one split of the loop: invariants, check set, enabledness, refinement -/
+theorem split_step_preserves {fn : Fn R} {k : SplitConsts R} {c c' : Cell R} {e : Edge} {chk chk' : CheckSet}
+    (h : splitEdge fn k c e chk = .ok (c', chk')) (hc : CellOk c) (hx : CopyOk c e) (hchk : ChkOk c chk)
+    (hne : ∀ z ∈ chk, z.key ≠ e.key) :
+    CellOk c' ∧ ChkOk c' chk' ∧ Enabled (Remesh.abs c) (.split e.n1 e.n2 (Simu.C11.newSlot c)) ∧
+      (Remesh.abs c').Perm (splitT (Remesh.abs c) e.n1 e.n2 (Simu.C11.newSlot c)) := by
+  obtain ⟨a, b, d1, d2, d3, _⟩ := splitEdge_pass h hc hx hchk hne
+  exact ⟨a, b, ⟨d1, d2⟩, d3⟩
+
+/-- one collapse of the loop (the guard `can_be_merged` answered `true`) -/
+theorem merge_step_preserves {fn : Fn R} {k : SplitConsts R} {c c' : Cell R} {e : Edge} {chk chk' : CheckSet}
+    (hg : canBeMerged c e = .ok true) (h : mergeEdge fn k c e chk = .ok (c', chk'))
+    (hc : CellOk c) (hx : CopyOk c e) (hchk : ChkOk c chk) :
+    CellOk c' ∧ ChkOk c' chk' ∧ Enabled (Remesh.abs c) (.collapse e.n1 e.n2 (Simu.C11.newSlot c)) ∧
+      Remesh.abs c' = collapseT (Remesh.abs c) e.n1 e.n2 (Simu.C11.newSlot c) := by
+  obtain ⟨a, b, d, t1, t2, e1, e2, e3, e4, _⟩ := mergeEdge_pass hg h hc hx hchk
+  exact ⟨a, b, ⟨t1, t2, e1, e2, e3, e4⟩, d⟩
+
+/-- one swap of the swap pass: either the code's own guards fired (nothing changed) or the abstract guard held — it is
+    DERIVED from the run, not assumed -/
+theorem swap_step_preserves {fn : Fn R} {c c' : Cell R} {e : Edge}
+    (h : swapEdge fn c e = .ok c') (hc : CellOk c) (hx : CopyOk c e) :
+    CellOk c' ∧ (c' = c ∨ (Enabled (Remesh.abs c) (.swap e.n1 e.n2) ∧
+      TriEquiv (Remesh.abs c') (swapT (Remesh.abs c) e.n1 e.n2))) :=
+  swapEdge_pass h hc hx
+
+/-- a pass on a valid cell never reads a released node slot (`Remesh.refineLive`, the decidable trace predicate of
+    `Model/RemeshLive.lean` that the C14 driver used to evaluate on every pass) -/
+theorem refine_pass_live (fn : Fn R) (k : RefineConsts R) (lminSq lmaxSq : R) (swapOn : Bool) (c : Cell R)
+    (maxIter : Nat) (hc : CellOk c) : refineLive fn k lminSq lmaxSq swapOn c maxIter = true :=
+  refineLive_of_invariants fn k lminSq lmaxSq swapOn c maxIter hc
+
+/-- a Boolean test of the invariants (meant for the cell a run starts from) is sound -/
+theorem cell_ok_check_sound {c : Cell R} (h : cellOkB c = true) : CellOk c := cellOk_of_B h
+
+end passes
+
+/-- non-vacuity of the pass theorems: the octahedron built by `initCell` over ℚ satisfies `CellOk` (kernel evaluation of
+    `cellOkB`) -/
+theorem cell_ok_nonvacuous : Remesh.CellOk Remesh.octaCell := Remesh.octaCell_ok
 
 /-! ### non-vacuity -/
 def tetra : List Tri := [(0, 1, 2), (0, 3, 1), (0, 2, 3), (1, 3, 2)]
